@@ -138,7 +138,7 @@ def gen_session(rng, pair, thorough):
     cur = {"kind": "plain", "block": 8}
     if rng.random() < 0.85:
         cur = switch(paired=rng.random() < 0.93)
-    seq = rng.choice([0, 0, 3, 0xFFFFFFFD, rng.randrange(1 << 32)])
+    seq = rng.choice([0, 0, 3, 0xFFFFFFFD, 0xFD, 0xFFFD, 0xFFFFFD, 0x7FFFFFFD, rng.randrange(1 << 32)])
     reqs += ["seqout %d" % seq, "seqin %d" % (seq if rng.random() < 0.96 else (seq + 1) % (1 << 32))]
     kd = rng.random() < 0.8
     reqs += ["kexout %d" % kd, "kexin %d" % (kd if rng.random() < 0.97 else (not kd))]
@@ -250,7 +250,7 @@ def oracle_session(ctx, Packetizer, Message, suites, comp, nmsgs, maxlen, switch
     out_sock, in_sock = L.SinkSock(rng), L.FragSock()
     ps, pr = Packetizer(out_sock), Packetizer(in_sock)
     ps._initial_kex_done = pr._initial_kex_done = True
-    seq = rng.choice([0, 3, 0xFFFFFFFA, rng.randrange(1 << 32)])
+    seq = rng.choice([0, 3, 0xFFFFFFFA, 0xFA, 0xFFFA, 0xFFFFFA, rng.randrange(1 << 32)])
     L.set_seq(ps, out=seq)
     L.set_seq(pr, inn=seq)
     switch_at = sorted(rng.sample(range(1, max(2, nmsgs)), min(switches, max(0, nmsgs - 1)))) if nmsgs > 1 else []
